@@ -7,7 +7,8 @@ P = {'id': 'C03',
               'mixed_get_record',
               'mixed_absent',
               'zip_get_record',
-              'zip_absent'],
+              'zip_absent',
+              'simplezip_fragment_lossless'],
  'trusted': ['modelled (M+S): src/blob_store/memory.rs; src/blob_store/mixed_len.rs (bitmap rank as count_occ-style spec rank, UintVecMin0 offsets at '
              'value level); src/blob_store/zip_offset_builder.rs + zip_offset.rs + sorted_uint_vec.rs (definitions, bit-exact file image compared on every run); '
              'src/blob_store/simple_zip.rs and zero_length.rs (definitions)',
